@@ -165,7 +165,7 @@ func c07Run(r *vReport, cs *c07Case, class string) {
 func TestVerifC07(t *testing.T) {
 	r := vNewReport("C07")
 	defer r.Write(t)
-	r.Extra["rule"] = "12 expression constructs (lexer, parser, semantic first/inner token, untrusted input, availability, bare if:) x extra indentation 0-4 x lines above 0-3 x block/flow x plain/single/double x prefix 0-5 x preceding placeholders 0-2 x spaces after ${{ 0-3; key constructs (unexpected, duplicate) and value constructs (enum, shell name, glob character at index 0-4) x indentation x lines above x style x quoting; plus line/column range of every non-YAML-level diagnostic over positions x fragments of the workflow seeds. class = construct x style x quoting; all non-trivial"
+	r.Extra["rule"] = "12 expression constructs (lexer, parser, semantic first/inner token, untrusted input, availability, bare if:) x extra indentation 0-4 x lines above 0-3 x block/flow x plain/single/double x prefix 0-5 x preceding placeholders 0-2 x spaces after ${{ 0-3; every non-exempt scalar position of the 4 seeds x plain/single/double x 0-3 spaces with an undefined variable; key constructs (unexpected, duplicate) and value constructs (enum, shell name, glob character at index 0-4) x indentation x lines above x style x quoting; plus line/column range of every non-YAML-level diagnostic over positions x fragments of the workflow seeds. class = construct x style x quoting; all non-trivial"
 	r.Extra["assumptions"] = []string{"one-line ASCII scalars without escape sequences only (as the statement says)"}
 	if raw := vReplayInput(); raw != nil {
 		var cs c07Case
@@ -261,6 +261,61 @@ func TestVerifC07(t *testing.T) {
 				cs := &c07Case{Desc: fmt.Sprintf("%s extra=%d above=%d", c.class, extra, above), Src: c.src, Line: c.line, Col: c.col, Msg: c.msg, NLines: strings.Count(c.src, "\n")}
 				r.Begin(func() string { return cs.Desc })
 				c07Run(r, cs, c.class)
+			}
+		}
+	}
+	// ---- every scalar position of the seeds x quoting x spaces after ${{ : an undefined variable
+	// spliced there must be reported exactly at its first character (this reaches every field
+	// kind: template strings, single-expression bool/int/float fields, section-level expressions)
+	cats0, err0 := vAllCatalogues()
+	if err0 != nil {
+		r.HarnessError("%v", err0)
+		return
+	}
+	undef := regexp.MustCompile(`^undefined variable "nosuchvar"`)
+	for _, c := range cats0 {
+		for _, p := range c.Scalars {
+			if sch, ok := vSchemaOf(p.NPath); !ok || sch.Exempt {
+				continue
+			}
+			lineText := c.Lines[p.Line-1]
+			inFlow := strings.ContainsAny(lineText[:p.Col-1], "[{")
+			for quote := 0; quote <= 2; quote++ {
+				if quote == 0 && inFlow {
+					continue
+				}
+				for spaces := 0; spaces <= 3; spaces++ {
+					idx++
+					if !r.Mine(idx) {
+						continue
+					}
+					content := "${{" + strings.Repeat(" ", spaces) + "nosuchvar }}"
+					scalar, qoff := c07Quote(quote, content)
+					src := c.Replace(p, scalar)
+					res := vLint(src, nil)
+					r.Evaluations++
+					r.Transitions++
+					r.Validated++
+					var hits []vDiag
+					for _, d := range vDiags(res.Errs) {
+						if undef.MatchString(d.Msg) {
+							hits = append(hits, d)
+						}
+					}
+					class := fmt.Sprintf("position/%s/%s", p.NPath, c07QuoteNames[quote])
+					if len(hits) == 0 {
+						r.Class("position/not-reported-as-undefined-variable", false)
+						continue
+					}
+					wantCol := p.Col + qoff + 3 + spaces
+					for _, h := range hits {
+						if h.Line != p.Line || h.Col != wantCol {
+							r.Violation("position:field:"+p.NPath+":"+c07QuoteNames[quote], fmt.Sprintf("%s %s (%s, %d spaces after ${{): variable is at %d:%d, diagnostic reported at %d:%d", c.Seed, p.Path, c07QuoteNames[quote], spaces, p.Line, wantCol, h.Line, h.Col),
+								map[string]any{"desc": fmt.Sprintf("field %s %s", c.Seed, p.Path), "src": src, "line": p.Line, "col": wantCol, "msg": undef.String(), "class": class})
+						}
+					}
+					r.Class(class, true)
+				}
 			}
 		}
 	}
